@@ -182,7 +182,7 @@ func c15GenFile(r *Rng, single bool) *c15File {
 	return f
 }
 
-const c15Header = 10 // lines written by WritePackage before the extra lines
+const c15Header = 11 // lines written by WritePackage before the extra lines
 
 type c15WholeCase struct {
 	idx    int
@@ -249,6 +249,10 @@ func c15WholeEvaluate(c *c15Checker, wc c15WholeCase, seedInfo map[string]any) {
 	res.Count("whole_autofix_lines", nfix)
 	if nfix > 0 {
 		c.distinct["whole\n"+strings.Join(wc.file.lines, "\n")] = true
+		if c.nsamples["whole"] < 2 && len(wc.file.lines) < 12 {
+			c.nsamples["whole"]++
+			c.res.Sample(map[string]any{"kind": "pkglint -F", "body_before": wc.file.lines, "body_after": wc.after[c15Header : len(wc.after)-2], "autofix_lines": nfix, "second_pass_output": wc.out2})
+		}
 	}
 	foreign := ""
 	// attribute every AUTOFIX line of the real run to the note printed before it in the -f run
@@ -304,7 +308,7 @@ func c15WholeEvaluate(c *c15Checker, wc c15WholeCase, seedInfo map[string]any) {
 }
 
 func c15WholeRun(c *c15Checker, rng *Rng, thorough bool) {
-	n := 160
+	n := 320
 	if thorough {
 		n = 5000
 	}
